@@ -60,7 +60,11 @@ def run_batch(func, cases, env=None, timeout=600, label='batch', poison=True, ma
                         rec = json.loads(line)
                     except Exception:
                         continue
-                    if rec.get('ev') == 'start':
+                    if rec.get('ev') == 'cover':
+                        from . import cover
+
+                        cover.merge(rec['lines'])
+                    elif rec.get('ev') == 'start':
                         last_started = rec['i']
                     elif rec.get('ev') == 'done':
                         results[rec['i']] = rec['res']
@@ -99,6 +103,9 @@ def _child(inp, out):
         f.write(json.dumps(rec) + '\n')
         f.flush()
 
+    from . import cover
+
+    cover.start(os.environ.get('VERIF_REPO', '/repo'))
     mod = importlib.import_module(modname)
     fn = getattr(mod, fname)
     from .core import jsonable
@@ -121,6 +128,8 @@ def _child(inp, out):
                 'tb': ''.join(traceback.format_exception(type(e), e, e.__traceback__))[-1200:],
             }
         emit({'ev': 'done', 'i': i, 'res': res})
+        if k % 50 == 49 or k == len(job['cases']) - 1:
+            emit({'ev': 'cover', 'lines': cover.dump()})
     f.close()
 
 
